@@ -10,7 +10,7 @@ RULE = ("TLC enumerates power-level contents for room versions 3-11: actor level
         "on the model for every configuration; each configuration is replayed through the real RoomPowerLevels helpers, the real "
         "push condition and the real auth_check. Non-trivial = specified (well-formed state for the version).")
 
-HELPERS = ["ban", "kick", "unban", "invite", "msg", "topic", "notif", "la", "lb"]
+HELPERS = ["ban", "kick", "unban", "invite", "msg", "topic", "topicmsg", "tpi", "notif", "la", "lb"]
 
 
 def run(rep, tier):
@@ -38,7 +38,8 @@ def run(rep, tier):
         nontriv += 1
         tm = c["tm"]
         pairs = [("ban", "a_ban", True), ("kick", "a_leave", tm in ("join", "invite")), ("unban", "a_leave", tm == "ban"),
-                 ("invite", "a_invite", tm in ("leave", "absent")), ("msg", "a_msg", True), ("topic", "a_topic", True)]
+                 ("invite", "a_invite", tm in ("leave", "absent")), ("msg", "a_msg", True), ("topic", "a_topic", True),
+                 ("topicmsg", "a_topicmsg", True), ("tpi", "a_tpi", True)]
         for hk, ak, applies in pairs:
             if o[ak] != c[ak]:
                 rep.violation("auth/%s-differs-from-model" % ak, {"case": c, "observed": o})
